@@ -199,7 +199,7 @@ theorem execT_case {S : ScanI} (hS : S.WF) {pat : List Atom} {st : St} {m e next
     rw [exec_eq_execT hS (by simp only; omega) (by omega)] at h
     exact (Out.ok.inj h).symm
   · simp only at h hpc ⊢
-    rw [exec_eq_execT hS (by simp only; omega) (by omega)] at h
+    rw [exec_eq_execT hS (by omega) (by omega)] at h
     exact (Out.ok.inj h).symm
 
 theorem execT_step_none {S : ScanI} (hS : S.WF) {pat : List Atom} {st : St} {m e : Nat} {a : Atom}
@@ -275,6 +275,7 @@ theorem execT_many {S : ScanI} (hS : S.WF) {pat : List Atom} {st : St} {m e limi
     rw [manyLoop_eq_manyT (f := fun s => execT S pat s 0xff 0)] at h
     · exact (Out.ok.inj h).symm
     · intro s hs
+      simp only at hs
       exact exec_eq_execT hS (by omega) (by omega)
 
 end Pelite.PatSem
